@@ -197,6 +197,10 @@ def check_text(ctx, text, exp, wit, workload, user_models=(), files=None, nontri
         ctx.violate("tables:count", f"number_of_decays {p.number_of_decays} != {len(p.list_decay_mother_names())} mothers", wit)
     if public:
         public_observation(ctx, p, exp, wit)
+        # ... and asking for tables does not reorder them
+        ms_after = list(p.list_decay_mother_names())
+        if ms_after[: len(exp["order"])] != exp["order"]:
+            ctx.violate("tables:mothers-order-after-queries", f"mothers after the table queries {ms_after[:len(exp['order']) + 2]}, file order {exp['order']}", wit)
     if files is None and ctx.rng.random() < 0.3:
         # the same instance parsed again must report the same tables (re-parsing is supported, it only warns)
         ctx.hit("second-parse-same-instance")
